@@ -76,6 +76,12 @@ end GIV.Txtar
 namespace GIV.Txtar
 open GIV
 
+/-- `BodyOK` in terms of `needsQuote` (for callers that test `NeedsQuote` before storing data). -/
+theorem bodyOK_iff_needsQuote [FLen] [FNQ] (d : Bytes) :
+    BodyOK d ↔ (d = [] ∨ d.getLast? = some NL) ∧ needsQuote d = some false := by
+  unfold BodyOK
+  rw [needsQuote_false_iff]
+
 theorem hasMarkerLine_fixNL [FLen] [FCR] [FLit] (d : Bytes) : HasMarkerLine (fixNL d) ↔ HasMarkerLine d := by
   unfold HasMarkerLine
   rw [splitLines_fixNL]
